@@ -15,16 +15,22 @@
 (***************************************************************************)
 EXTENDS QR
 
+CONSTANT SignFix
+
 BitsOf(x, w) == [i \in 1..w |-> BitOf(x, w - i)]
 AlnumIdx(c) == (CHOOSE i \in 1..45 : AlnumChars[i] = c) - 1
 
+\* digit groups of three (the last one shorter). SignFix = TRUE: as implemented, a group must consist of digits. SignFix = FALSE: the design of
+\* the pinned tree, in which a group was handed to a number parser that also swallows a leading sign ("+12" -> 12 -> "012"): the negative
+\* model for which TLC finds the content that does not read back.
+Group(bytes, g) == SubSeq(bytes, 3 * g - 2, IF 3 * g <= Len(bytes) THEN 3 * g ELSE Len(bytes))
+GroupOK(ch) == (\A i \in 1..Len(ch) : IsDigit(ch[i]))
+               \/ (~SignFix /\ Len(ch) >= 2 /\ ch[1] = 43 /\ \A i \in 2..Len(ch) : IsDigit(ch[i]))
+GroupVal(ch) == FoldLeft(LAMBDA a, c : IF IsDigit(c) THEN 10 * a + (c - 48) ELSE a, 0, ch)
+NumGroups(bytes) == (Len(bytes) + 2) \div 3
+NumericOK(bytes) == \A g \in 1..NumGroups(bytes) : GroupOK(Group(bytes, g))
 NumPayload(bytes) ==
-  LET n == Len(bytes)
-      d(i) == bytes[i] - 48
-      full == n \div 3
-      rem == n % 3
-  IN FoldLeft(LAMBDA acc, g : acc \o BitsOf(100 * d(3 * g - 2) + 10 * d(3 * g - 1) + d(3 * g), 10), <<>>, Iota(full))
-     \o (IF rem = 1 THEN BitsOf(d(n), 4) ELSE IF rem = 2 THEN BitsOf(10 * d(n - 1) + d(n), 7) ELSE <<>>)
+  FoldLeft(LAMBDA acc, g : LET ch == Group(bytes, g) IN acc \o BitsOf(GroupVal(ch), <<4, 7, 10>>[Len(ch)]), <<>>, Iota(NumGroups(bytes)))
 AlnumPayload(bytes) ==
   LET n == Len(bytes)
       full == n \div 2
@@ -43,7 +49,7 @@ NoEnc == [ok |-> FALSE, v |-> 0, bits |-> <<>>]
 \* one mode encoder: md in {1, 2, 4}
 EncMode(bytes, level, md) ==
   LET v == MinVersion(level, md, Len(bytes))
-  IN IF v = 0 \/ ~Expressible(md, bytes) THEN NoEnc
+  IN IF v = 0 \/ ~(IF md = 1 THEN NumericOK(bytes) ELSE Expressible(md, bytes)) THEN NoEnc
      ELSE [ok |-> TRUE, v |-> v,
            bits |-> PadAndTerminate(BitsOf(md, 4) \o BitsOf(Len(bytes), CountBits(v, md))
                                     \o (CASE md = 1 -> NumPayload(bytes) [] md = 2 -> AlnumPayload(bytes) [] md = 4 -> BytePayload(bytes)),
